@@ -315,7 +315,9 @@ def r15_3(ctx: Ctx):
         calls = [c for c in ast.walk(loops[0]) if isinstance(c, ast.Call) and norm(c.func) == f"{psn}._find_nearest_better"]
         okc = len(calls) == 1 and len(calls[0].args) == 2 and canon(calls[0].args[0]) == ind
         obs.append(ctx.ob("R15.3", ps, calls[0] if calls else loops[0], status=OK if okc else INCONCLUSIVE, detail="nearest better found among the better-set" if okc else "nearest-better search is not applied to (individual, its better-set)", construct="nearest-call"))
-    fn = nbc.methods["_find_nearest_better"]
+    fn = nbc.methods.get("_find_nearest_better")
+    if fn is None:
+        raise AnalysisError("NearestBetterClustering._find_nearest_better vanished (the nearest-better search is an anchor of R15.3)")
     i_p, b_p = fn.params()[1], fn.params()[2]
     fdefs = local_defs(fn)
     rets = [r for r in body_walk(fn.node) if isinstance(r, ast.Return)]
